@@ -92,9 +92,19 @@ def x_hist(ctx, case):
             cls = EmptyLooking if cfg.get("falsy_sinks") else recorders.StreamRecorder
             if cfg.get("equal_sinks"):
                 cls = ByValue
+
+            class MayFail(cls):
+                """... and that raises, after taking the event, when the case says so."""
+
+                def status(self, *a, **k):
+                    super().status(*a, **k)
+                    if fault.get("armed") is not None:
+                        raise fault.pop("armed")
+            cls = MayFail
             sinks[name] = cls(log, name)
         return sinks[name]
 
+    fault = {}
     fallback = sink("fallback") if cfg["fallback"] else None
     router = testtools.StreamResultRouter(fallback, do_start_stop_run=cfg["fb_ssr"])
     # model state
@@ -190,11 +200,25 @@ def x_hist(ctx, case):
                 dest = "fallback"
             before = len(log.events)
             raised = None
+            boom = None
+            if op[-1].get("sink_raises") and dest is not None:
+                boom = fault["armed"] = {"KeyError": KeyError, "LookupError": LookupError,
+                                         "ValueError": ValueError}[op[-1]["sink_raises"]]("the sink failed")
             try:
                 router.status(**sent)
             except Exception as e:  # noqa
                 raised = e
+            fault.pop("armed", None)
             new = [e for e in log.events[before:] if e.name == "status"]
+            if boom is not None:
+                # the destination raises: the caller sees exactly that, and nobody else gets the event
+                ctx.check(raised is boom and [e.payload["sink"] for e in new] == [dest], "route.exactly-one-sink-gets-it",
+                          lambda: {"event": op[-1], "the sink raised": repr(boom), "the caller saw": repr(raised),
+                                   "delivered to": [e.payload["sink"] for e in new], "want sink": dest, **detail()})
+                expected[dest].append(("status",))
+                for extra in new[1:]:
+                    expected[extra.payload["sink"]].append(("status",))
+                continue
             if dest is None:
                 ctx.check(raised is not None and not new, "route.raises-without-destination",
                           lambda: {"event": op[-1], "raised": repr(raised), "delivered": len(new), **detail()})
@@ -307,6 +331,8 @@ def run(ctx):
                     e.update(fn="f", fb=rng.choice(["", "78"]), eof=rng.random() < 0.5)
                 if rng.random() < 0.4:
                     e["ts"] = 1
+                if rng.random() < 0.06:
+                    e["sink_raises"] = rng.choice(["KeyError", "LookupError", "ValueError"])
                 if rng.random() < 0.25:
                     ops.append(["q", [rng.choice(segs) for _ in range(rng.randint(1, 2))], e])
                 else:
